@@ -236,7 +236,7 @@ func (vc *VC) modelCall(fr *Frame, st *State, callee *ssa.Function, args []strin
 		vc.fact(st.pc, fmt.Sprintf("(>= (slen %s) 0)", r))
 		src := ""
 		if len(argVals) > 0 {
-			src = provenance(argVals[0], 0)
+			src = vc.prov(fr, argVals[0])
 		}
 		switch full {
 		case "strconv.FormatFloat":
@@ -263,7 +263,7 @@ func (vc *VC) modelCall(fr *Frame, st *State, callee *ssa.Function, args []strin
 		}
 		src := ""
 		if len(argVals) > 0 {
-			src = provenance(argVals[0], 0)
+			src = vc.prov(fr, argVals[0])
 		}
 		vc.setShape(r, shHole(kind, src))
 		return []string{r}, true
